@@ -19,9 +19,9 @@ import (
 	"strings"
 	"testing"
 
+	kit "github.com/ChainSafe/gossamer/internal/verifkit"
 	"github.com/ChainSafe/gossamer/lib/common"
 	"github.com/ChainSafe/gossamer/lib/crypto/ed25519"
-	kit "github.com/ChainSafe/gossamer/internal/verifkit"
 	"pgregory.net/rapid"
 )
 
@@ -40,26 +40,26 @@ type c18Entry struct {
 }
 
 type c18Case struct {
-	n          int    // authorities = keys 0..n-1
-	parent     []int  // tree
-	head       int    // highest finalised block
-	headRound  uint64 // round in which head was finalised
-	target     Vote
-	round      uint64 // commit round
-	setID      uint64 // current set id of the service
-	commitSet  uint64 // set id carried by the commit
-	entries    []c18Entry
+	n           int    // authorities = keys 0..n-1
+	parent      []int  // tree
+	head        int    // highest finalised block
+	headRound   uint64 // round in which head was finalised
+	target      Vote
+	round       uint64 // commit round
+	setID       uint64 // current set id of the service
+	commitSet   uint64 // set id carried by the commit
+	entries     []c18Entry
 	adversarial int
-	honestK    int
+	honestK     int
 }
 
 type c18Result struct {
-	err       error
-	calls     []vFinalCall
-	s         int  // |S| by the oracle
-	targetOK  bool // target is a known block with the stated number
-	already   bool // the block state already had a finalised block for (round, setID)
-	descHead  bool // target descends from the finalised head
+	err      error
+	calls    []vFinalCall
+	s        int  // |S| by the oracle
+	targetOK bool // target is a known block with the stated number
+	already  bool // the block state already had a finalised block for (round, setID)
+	descHead bool // target descends from the finalised head
 }
 
 func (c *c18Case) describe(tree *vTree) string {
@@ -432,4 +432,67 @@ func TestC18Commit(t *testing.T) {
 		nontrivial := (d >= -1 && d <= 1) || c.adversarial > 0
 		kit.Case(descr, nontrivial, labels...)
 	})
+}
+
+// TestC18Regressions: shrunk failures of TestC18Commit on the pinned tree
+// (repaired by fixes/01 and fixes/02), kept as deterministic cases.
+func TestC18Regressions(t *testing.T) {
+	defer kit.Flush()
+	chain2 := []int{-1, 0} // genesis <- b1
+	mk := func(n int, parent []int, target int, mkEntries func(c *c18Case, tree *vTree)) *c18Case {
+		tree := newVTree(parent)
+		c := &c18Case{n: n, parent: parent, round: 2, target: tree.vote(target)}
+		mkEntries(c, tree)
+		return c
+	}
+	add := func(c *c18Case, kind string, key int, v Vote, signRound uint64) {
+		c.entries = append(c.entries, c18Entry{kind, key, v, vSignVote(key, precommit, v, signRound, c.commitSet)})
+	}
+	cases := map[string]*c18Case{
+		"empty-commit-n1": mk(1, chain2, 0, func(c *c18Case, tree *vTree) {}),
+		"two-of-three": mk(3, chain2, 1, func(c *c18Case, tree *vTree) {
+			add(c, "ok", 0, tree.vote(1), 2)
+			add(c, "ok", 1, tree.vote(1), 2)
+		}),
+		"two-of-four": mk(4, chain2, 1, func(c *c18Case, tree *vTree) {
+			add(c, "ok", 2, tree.vote(1), 2)
+			add(c, "ok", 3, tree.vote(1), 2)
+		}),
+		"duplicate-entry": mk(2, chain2, 0, func(c *c18Case, tree *vTree) {
+			add(c, "ok", 0, tree.vote(0), 2)
+			add(c, "dup(ok)", 0, tree.vote(0), 2)
+		}),
+		"unverified-equivocator": mk(2, chain2, 1, func(c *c18Case, tree *vTree) {
+			add(c, "ok", 0, tree.vote(1), 2)
+			add(c, "ancestor", 1, tree.vote(0), 2)
+			add(c, "wrongRound", 1, tree.vote(1), 3)
+		}),
+		"outsider-listed-twice": mk(3, chain2, 1, func(c *c18Case, tree *vTree) {
+			add(c, "ok", 0, tree.vote(1), 2)
+			add(c, "ok", 1, tree.vote(1), 2)
+			add(c, "nonAuth2", c18NonMemberBase, tree.vote(1), 2)
+			add(c, "nonAuth2", c18NonMemberBase, tree.vote(0), 2)
+		}),
+		"twice-garbage": mk(3, chain2, 1, func(c *c18Case, tree *vTree) {
+			add(c, "ok", 0, tree.vote(1), 2)
+			add(c, "ok", 1, tree.vote(1), 2)
+			c.entries = append(c.entries, c18Entry{"twiceBadSig", 2, tree.vote(1), [64]byte{1}}, c18Entry{"twiceBadSig", 2, tree.vote(1), [64]byte{2}})
+		}),
+		// honest supermajority (3 of 3): acceptance is measured, not required
+		"honest-three-of-three": mk(3, chain2, 1, func(c *c18Case, tree *vTree) {
+			add(c, "ok", 0, tree.vote(1), 2)
+			add(c, "ok", 1, tree.vote(1), 2)
+			add(c, "ok", 2, tree.vote(1), 2)
+		}),
+	}
+	for name, c := range cases {
+		r, tree, err := c18Eval(c)
+		if err != nil {
+			t.Fatalf("%s: harness: %v", name, err)
+		}
+		if msg := c18Judge(c, r); msg != "" {
+			t.Errorf("%s: %s\ncase: %s\nerr=%v", name, msg, c.describe(tree), r.err)
+		}
+		t.Logf("%s: |S|=%d of %d, finalised=%v err=%v", name, r.s, c.n, len(r.calls) > 0, r.err)
+	}
 }
